@@ -8,6 +8,8 @@ from . import common as C
 from . import sim_check as SC
 from . import xcut as X
 
+CLAIM_MORE = "ALSO proved, with decidable checkers proved sound, accepted on every model run, extracted and applied to the implementation's own arrays: fast_SIS / fast_nonMarkov_SIS (coq/Props/C04esis.v), the four discrete-time simulators (C04disc.v: every run a chain of status maps per unit step, never crashes, fuel bounds), Gillespie_simple_contagion and Gillespie_complex_contagion (C04gen.v)."
+
 CLAIM = dict(
     text="Machine-checked theorems (coq/Props/C04.v, closed under the global context): for Gillespie_SIR and Gillespie_SIS, for EVERY graph, rates, weights, "
          "initial sets, tmin/tmax and EVERY draw script, the returned rows start at tmin, have non-decreasing times strictly below tmax, are censuses of a status "
